@@ -186,15 +186,21 @@ def build(run):
 
     def term_make(kind):
         def make():
-            d = S("d0")
+            d, sdeg = S("d0"), S("s0")
             e = est()
+            # the element's span may exceed the largest full P_k it contains: sub-degree s0 <= super-degree d0 (bubbles, Nedelec, RT); the true polynomial
+            # degree of the function is the SUPER-degree d0
+            V = ufl.FunctionSpace(tri, E.FiniteElement("P", ufl.triangle, d, (), identity_pullback, H1, subdegree=sdeg))
+            if kind == "coefficient":
+                return (lambda _d, _s: e.coefficient(ufl.Coefficient(V))), [d, sdeg]
+            return (lambda _d, _s: e.argument(ufl.TestFunction(V))), [d, sdeg]
             V = ufl.FunctionSpace(tri, elem(d))
             if kind == "coefficient":
                 return (lambda _d: e.coefficient(ufl.Coefficient(V))), [d]
             return (lambda _d: e.argument(ufl.TestFunction(V))), [d]
         return make
     for kind in ("coefficient", "argument"):
-        transfer(f"transfer/{kind}", term_make(kind), lambda args: nn(*args), lambda args, r: ge(r, term(args[0])),
+        transfer(f"transfer/{kind}", term_make(kind), lambda args: nn(*args) + [term(args[1]) <= term(args[0])], lambda args, r: ge(r, term(args[0])),
                  handler=getattr(SumDegreeEstimator, kind))
 
     def consts():
